@@ -45,13 +45,13 @@ var run *vlib.Run
 // ---------- certificates ----------
 
 type certs struct {
-	fpKeyFP         string // fingerprint of the F key
-	F, FA           *x509.Certificate
-	A1, B1, U       *x509.Certificate
-	Aexp, Asrv      *x509.Certificate
-	caA, caB        *x509.Certificate
-	caAPEM, caBPEM  string
-	byName          map[string][]*x509.Certificate
+	fpKeyFP        string // fingerprint of the F key
+	F, FA          *x509.Certificate
+	A1, B1, U      *x509.Certificate
+	Aexp, Asrv     *x509.Certificate
+	caA, caB       *x509.Certificate
+	caAPEM, caBPEM string
+	byName         map[string][]*x509.Certificate
 }
 
 var C certs
@@ -161,7 +161,7 @@ type keySpec struct {
 }
 
 type cfgSpec struct {
-	F, A, B []string  // roles of each client; nil = client absent
+	F, A, B []string // roles of each client; nil = client absent
 	Keys    []keySpec
 	Trusted []string
 	Policy  bool
